@@ -30,6 +30,8 @@ func genC11(g *simrt.Tape, tier string) any {
 			case 2:
 				call.Kind = "yield"
 				call.N = 1 + g.Draw(6)
+			case 3:
+				call.Kind = "clone"
 			}
 			if call.Kind == "request" || call.Kind == "batch" {
 				if g.Draw(6) == 0 {
